@@ -99,6 +99,9 @@ def check(ctx, rep):
     rep.rule("R17l", "the content, condition, attributes and omit-tag commands treat the value of their expression as TAL prescribes - nothing, "
              "default, and real values including 0, the empty string and empty sequences: each handler is evaluated by the walker on "
              "representative values and the interpreter's registers are compared", floor=3)
+    rep.rule("R17m", "tal:define: each statement is local unless it says global, statements take effect in source order (a later statement sees "
+             "the variables of the earlier ones), one local scope per element: the compiler's parser and the interpreter's handler are "
+             "evaluated on representative statements", floor=2)
     rep.rule("R17k", "TALES expressions have their prescribed value: Context.evaluate is evaluated by the walker on representative expressions "
              "(alternation, exists / nocall / not / string prefixes, nothing / default, sub-paths) over a small context of true, false, "
              "empty and missing names", floor=1)
@@ -571,6 +574,9 @@ def check(ctx, rep):
     # ------------------------------------------------------------------ R17l
     command_evaluation_obligations(ctx, rep, "R17l", mod, tales)
 
+    # ------------------------------------------------------------------ R17m
+    define_evaluation_obligations(ctx, rep, "R17m", mod)
+
     # ------------------------------------------------------------------ R17i
     ctxcls = tales.classes.get("Context")
     ev = ctxcls.methods.get("evaluate") if ctxcls else None
@@ -907,3 +913,106 @@ def command_evaluation_obligations(ctx, rep, rule, mod, tales):
                 not slot["problems"] and ok_n, ctx.where(h),
                 "; ".join(slot["problems"][:3]) if slot["problems"] else ("" if ok_n else "the walker could not follow the handler on most cases"),
                 key=f"{rule}|{hname}", nontrivial=ok_n)
+
+
+# ---------------------------------------------------------------------------------------------- R17m
+def define_evaluation_obligations(ctx, rep, rule, mod):
+    from ..paths import Const, PathLimit, Walker
+
+    prog = ctx.prog
+    comp = mod.classes.get("TemplateCompiler")
+    interp = mod.classes.get("TemplateInterpreter")
+    cd = prog.resolve_method(comp, "compileCmdDefine") if comp else None
+    hd = prog.resolve_method(interp, "cmdDefine") if interp else None
+    if cd is None or hd is None or len(cd.params) < 2 or len(hd.params) < 3:
+        rep.fail(rule, "compileCmdDefine / cmdDefine", detail="tal:define compiler or handler not found")
+        return
+    # ---- the compiler's reading of the attribute
+    cases = [("a string:A", [(1, "a", "string:A")]),
+             ("global g string:G; a string:A", [(0, "g", "string:G"), (1, "a", "string:A")]),
+             ("a string:A; global g a", [(1, "a", "string:A"), (0, "g", "a")]),
+             ("local l x/y; global g l; m l", [(1, "l", "x/y"), (0, "g", "l"), (1, "m", "l")]),
+             ("global g string:with space inside", [(0, "g", "string:with space inside")]),
+             ("a string:one;;two; b a", [(1, "a", "string:one;two"), (1, "b", "a")]),
+             ("global one string:1; global two string:2", [(0, "one", "string:1"), (0, "two", "string:2")])]
+    problems, n = [], 0
+    for text, want in cases:
+        w = Walker(prog, ctx.resolver, exact_loops=True, unroll=8, max_paths=20000, inline=lambda fn, t, d: d < 2 and t.bound_cls is not None and fn.name != "tagAsText")
+        outs = set()
+        try:
+            for p in w.run(cd, comp, env={cd.params[1]: Const(text)}):
+                if p.kind == "raise":
+                    outs.add("raises " + str(p.value))
+                elif p.kind == "return" and p.value is not None and p.value.kind == "const" and isinstance(p.value.value, tuple) and len(p.value.value) == 2:
+                    outs.add(repr([tuple(x) for x in p.value.value[1]]))
+                elif p.kind == "return" and p.value is not None and p.value.kind == "record" and len(p.value.value[1]) == 2 \
+                        and p.value.value[1][1].kind == "const":
+                    outs.add(repr([tuple(x) for x in p.value.value[1][1].value]))
+                else:
+                    outs.add("?")
+        except (PathLimit, RecursionError):
+            outs = {"?"}
+        if len(outs) != 1 or "?" in outs:
+            continue
+        n += 1
+        got = next(iter(outs))
+        if got != repr(want):
+            problems.append(f"tal:define=\"{text}\" is compiled to {got}, prescribed {want!r} (scope flag, name, expression per statement)")
+    ok_n = n * 2 >= len(cases)
+    rep.add(rule, f"{cd.qualname}: statements of a define attribute [{n} of {len(cases)} evaluated]", not problems and ok_n, ctx.where(cd),
+            "; ".join(problems[:2]) if problems else ("" if ok_n else "the walker could not follow the parser"), key=f"{rule}|compile", nontrivial=ok_n)
+
+    # ---- the interpreter: order of evaluation and binding
+    args = [(1, "t", "E1"), (0, "g", "E2"), (1, "u", "E3"), (0, "h", "E4")]
+    want_trace = (("eval", "E1"), ("pushLocals",), ("setLocal", "t", "<E1>"), ("eval", "E2"), ("addGlobal", "g", "<E2>"),
+                  ("eval", "E3"), ("setLocal", "u", "<E3>"), ("eval", "E4"), ("addGlobal", "h", "<E4>"))
+    holder = {}
+
+    def cv(call, target, st):
+        f = call.func
+        if not (isinstance(f, ast.Attribute) and "context" in norm(f.value)):
+            return None
+        a = holder["w"].cur_args or []
+        tr = st.facts.get("__trace")
+        tr = tr.value if tr is not None and tr.kind == "const" else ()
+        if f.attr == "evaluate" and a and a[0].kind == "const":
+            st.facts["__trace"] = Const(tr + (("eval", a[0].value),))
+            return Const(f"<{a[0].value}>")
+        if f.attr in ("setLocal", "addGlobal", "setGlobal") and len(a) >= 2:
+            st.facts["__trace"] = Const(tr + ((f.attr, a[0].value if a[0].kind == "const" else "?", a[1].value if a[1].kind == "const" else "?"),))
+            return Const(None)
+        if f.attr in ("pushLocals", "popLocals"):
+            st.facts["__trace"] = Const(tr + ((f.attr,),))
+            return Const(None)
+        return None
+
+    facts = {"self.programCounter": Const(7), "self.originalAttributes": Const({}), "self.localVarsDefined": Const(0)}
+    w = Walker(prog, ctx.resolver, call_value=cv, exact_loops=True, unroll=8, max_paths=20000,
+               inline=lambda fn, t, d: d < 2 and t.bound_cls is not None and fn.cls is not None and fn.cls.module is mod)
+    holder["w"] = w
+    outs = set()
+    try:
+        for p in w.run(hd, interp, env={hd.params[1]: Const(None), hd.params[2]: Const(args)}, facts=dict(facts)):
+            if p.kind == "raise":
+                outs.add(("raises", str(p.value)))
+                continue
+            tr = p.state.facts.get("__trace")
+            lv = p.state.facts.get("self.localVarsDefined")
+            pc = p.state.facts.get("self.programCounter")
+            outs.add((tr.value if tr is not None and tr.kind == "const" else None,
+                      truth(lv) if lv is not None else None, pc.value if pc is not None and pc.kind == "const" else None))
+    except (PathLimit, RecursionError):
+        outs = set()
+    problems = []
+    decided = len(outs) == 1 and next(iter(outs))[0] not in (None, "raises")
+    if decided:
+        tr, lv, pc = next(iter(outs))
+        if tr != want_trace:
+            problems.append(f"for the statements {args!r} the handler does {list(tr)!r}; prescribed: evaluate and bind each statement in source order, "
+                            f"one pushLocals before the first local ({list(want_trace)!r})")
+        if lv is not True:
+            problems.append("localVarsDefined is not set although locals were defined (the scope is never popped)")
+        if pc != 8:
+            problems.append(f"the program counter is {pc!r} after the command (7 before)")
+    rep.add(rule, f"{hd.qualname}: statements take effect in source order, one local scope", decided and not problems, ctx.where(hd),
+            "; ".join(problems[:2]) if problems else ("" if decided else "the walker could not follow the handler"), key=f"{rule}|handler", nontrivial=decided)
